@@ -29,19 +29,20 @@ import snapshot as snapmod
 import pickleio
 
 LEVEL = "proof"
-LEVEL_NOTE = ("PARTIAL: pickle is modelled in Lean (PepperModel/Pickle.lean: unpickler VM, abstract pickler, canonical form of a rooted heap) and tied to "
-              "CPython on every run: real .save bytes through the Lean VM, in-memory graph and the graph reloaded in a fresh process walked by id() and "
-              "canonised by the Lean `canon`, Lean `dump` = real opcode list. PROVED (PepperProps/C16Pickle.lean): equal canonical forms => isomorphic "
-              "graphs incl. sharing and cycles, and conversely (canon_iso, iso_canon); unpickler frame/identity/freshness lemmas; the round trip for every heap of "
-              "atoms, strings, bytes, tuples and lists (<= 1000 elements) with arbitrary sharing and cycles (simulation invariant, roundtrip_lists_tuples_partial), "
-              "and the full isomorphism conclusion for each heap on which the evaluated check `roundtripB` is true (evaluated on every in-memory heap of "
-              "every run). NOT PROVED: the round trip for all heaps (RoundtripStatement): dict, set, class and instance cells, i.e. the real .save heaps are "
-              "covered by evaluation only. NOT MODELLED: the C `_pickle` itself (only "
-              "compared per run), find_class / import in the fresh process, what cls.__new__ / reduce callables return, sys.intern of attribute names, "
-              "__setstate__ (none occurs; reported if one appears), BINFLOAT payload (opaque 8 bytes); decoded heap -> snapshot is read by the harness, "
-              "not in Lean (snapshotOfHeap not done). String identity is part of the compared graphs (the pickler preserves it) EXCEPT for strings of <= 1 character: "
-              "the real unpickler returns the interpreter's singletons while a live graph may hold other objects with the same text (''.join in fix_seq), so "
-              "graphs are compared modulo the identity of such strings (pickleio.modulo_short_strings; counted in the evidence)")
+LEVEL_NOTE = ("PARTIAL: pickle is modelled in Lean (PepperModel/Pickle.lean: unpickler VM, abstract pickler, canonical form of a rooted heap, "
+              "snapshotOfHeap) and tied to CPython on every run: real .save bytes through the Lean VM, in-memory graph and the graph reloaded in a fresh "
+              "process walked by id() and canonised by the Lean `canon`, Lean `dump` = real opcode list, snapshotOfHeap(decoded real bytes) = the model's "
+              "snapshot of the compile. PROVED (PepperProps/C16Pickle.lean): equal canonical forms <=> isomorphic graphs incl. sharing and cycles; "
+              "unpickler frame/identity/freshness lemmas; the round trip canon(run(dump h r)) = canon h r for every `Supported` heap (atoms, str, bytes, "
+              "tuples, lists, string-keyed dicts, classes, instances with dict items / state + BUILD; arbitrary sharing and cycles incl. cycles through "
+              "instances) - the hypothesis is decidable and evaluated on every real in-memory heap of every run (all satisfy it). NOT PROVED: the round "
+              "trip outside `Supported` (sets, >1000-item batches, non-string keys, instances with list items / constructor args; unconditionally it is "
+              "false); snapshotOfHeap(run bytes) = model snapshot (compared per run). NOT MODELLED: the C `_pickle` itself (only compared per run), "
+              "find_class / import in the fresh process, what cls.__new__ / reduce callables return, sys.intern of attribute names, __setstate__ (none "
+              "occurs; reported if one appears), BINFLOAT payload (opaque 8 bytes). String identity is part of the compared graphs (the pickler preserves "
+              "it) EXCEPT for strings of <= 1 character: the real unpickler returns the interpreter's singletons while a live graph may hold other "
+              "objects with the same text (''.join in fix_seq), so graphs are compared modulo the identity of such strings "
+              "(pickleio.modulo_short_strings; counted in the evidence)")
 
 
 def replay(path):
@@ -114,6 +115,7 @@ class PickleTie:
                     "shared_refs": 0, "shared_strings": 0, "cyclic_components": 0, "cells_on_cycles": 0, "vm_cells_allocated": 0,
                     "heaps_satisfying_the_hypothesis_of_theorem_roundtrip": 0}
         self.census_directed = {}
+        self.decoded_snapshots = {}      # program -> C16 snapshot read by Lean off the heap decoded from the REAL .save bytes
         self.seconds = 0.0
         self.classes = {}
         self.setstate = set()
@@ -171,12 +173,14 @@ class PickleTie:
                      {"op": "pickle-canon", "heap": hr, "root": rr},
                      {"op": "pickle-dump", "heap": hm, "root": rm},
                      {"op": "pickle-roundtrip", "heap": hm, "root": rm},
-                     {"op": "pickle-supported", "heap": hm, "root": rm}]
+                     {"op": "pickle-supported", "heap": hm, "root": rm},
+                     {"op": "pickle-snapshot", "ops": ops}]
         got = self.drv.call_many(reqs)
         agot = self.drv.call_many(areqs)
         res = self.res
         for k, (inp, nbytes, ops, (hm, rm, im), (hr, rr, ir), attrs) in enumerate(pend):
-            vm, cm, cr, dm, rt, sp = got[6 * k: 6 * k + 6]
+            vm, cm, cr, dm, rt, sp, sn = got[7 * k: 7 * k + 7]
+            self.decoded_snapshots[json.dumps(inp, sort_keys=True)] = fmt_opt(sn.get("ok")) if "ok" in sn else {"err": sn.get("err")}
             res.disagreements_checked += 4
             # is this real heap inside the hypothesis `Supported` of theorem `roundtrip` (then its round trip is proved)?
             if sp.get("ok") is True:
@@ -308,9 +312,30 @@ class PickleTie:
             "obligations_per_program": ["canon(LeanVM(real bytes)) = canon(reloaded graph, fresh process)", "canon(in-memory graph) = canon(reloaded graph)",
                                         "Lean dump(in-memory heap) = real opcode list modulo PROTO/FRAME/spelling",
                                         "canon(run(dump h r)) = canon h r evaluated on the in-memory heap",
+                                        "snapshotOfHeap(LeanVM(real bytes)) = the model's `snapshot` of the compile = snapshot of the reloaded graph",
                                         "supportedB(in-memory heap, root) evaluated: the hypothesis of theorem C16Pickle.roundtrip (counted, not required)"]}
         if self.setstate:
             res.notes.append("pickled classes defining __setstate__ (BUILD on them is outside the model): %s" % sorted(self.setstate))
+
+
+def fmt_opt(tree):
+    """the Lean `snapshotOfHeap` hands a structure's `opt` out as the heap holds it (`["float", hex]` / `["int", decimal]`, the 8
+    bytes of a BINFLOAT stay opaque in Lean); snapshot.py and the model's `snapshot` print `"%f" % opt`"""
+    import struct
+
+    def walk(t):
+        if isinstance(t, dict):
+            out = {}
+            for k_, v_ in t.items():
+                if k_ == "opt" and isinstance(v_, list) and v_ and v_[0] in ("float", "int"):
+                    out[k_] = "%f" % (struct.unpack(">d", bytes.fromhex(v_[1]))[0] if v_[0] == "float" else int(v_[1]))
+                else:
+                    out[k_] = walk(v_)
+            return out
+        if isinstance(t, list):
+            return [walk(x) for x in t]
+        return t
+    return walk(tree)
 
 
 def first_diff(a, b):
@@ -526,4 +551,16 @@ def run(st, tier, seed):
                 res.corr_breaks.append({"name": "Snapshot", "input": inp, "model": json.dumps(g)[:600], "impl": json.dumps(tree)[:600]})
                 if len(res.corr_breaks) > 3:
                     break
+            # [pickle model] the snapshot Lean reads off the heap it decodes from the REAL .save bytes (snapshotOfHeap) against the
+            # model's own snapshot of the compile (ties the pickled BYTES to the model's compile state) and against the harness
+            # snapshot of the graph reloaded in a fresh process
+            dec = pk.decoded_snapshots.get(json.dumps(inp, sort_keys=True))
+            if dec is not None:
+                res.disagreements_checked += 1
+                res.count("pickle:decoded-bytes-snapshot-compared")
+                if dec != g.get("ok") or dec != tree:
+                    res.corr_breaks.append({"name": "PickleSnapshot", "input": inp, "model": json.dumps(dec)[:600],
+                                            "impl": "model snapshot equal: %s, reloaded-graph snapshot equal: %s" % (dec == g.get("ok"), dec == tree)})
+                    if len(res.corr_breaks) > 3:
+                        break
     return res
